@@ -96,12 +96,15 @@ class ValueGen(object):
                 return rnd.choice(cands)
         top = hi if hi is not None else max(lo, cap)
         top_c = min(top, max(cap, lo))
+        big = rnd.random() < self.big_len_p and not small
+        if not big:
+            top_c = min(top_c, max(lo, 300))       # lengths above 300 only with probability big_len_p
         cands = [lo, lo, top_c]
         if lo + 1 <= top_c:
             cands.append(lo + 1)
         if top_c - 1 >= lo:
             cands.append(top_c - 1)
-        if rnd.random() < self.big_len_p and not small:
+        if big:
             cands += [e for e in self.len_edges if lo <= e <= top_c]
         else:
             cands += [e for e in self.len_edges if lo <= e <= min(top_c, 20)]
